@@ -386,3 +386,42 @@ PROPS['C15'] = dict(
     extra_coverage={'grid_calls': lambda agg, d: agg['counters'].get('grid_calls', 0), 'stack_comparisons': lambda agg, d: agg['counters'].get('stack_comparisons', 0)},
     must_observe={'stack comparisons': lambda agg, d: agg['counters'].get('stack_comparisons', 0) > 0},
 )
+
+
+# ---------------------------------------------------------------- C10
+def c10_cfgs(tier):
+    base = [{}, {'ARDUINOJSON_ENABLE_COMMENTS': 1}, {'ARDUINOJSON_ENABLE_NAN': 1, 'ARDUINOJSON_ENABLE_INFINITY': 1, 'ARDUINOJSON_DECODE_UNICODE': 0}]
+    if tier == 'quick':
+        return base
+    out = []
+    for m in range(16):
+        out.append({'ARDUINOJSON_ENABLE_COMMENTS': m & 1, 'ARDUINOJSON_ENABLE_NAN': (m >> 1) & 1, 'ARDUINOJSON_ENABLE_INFINITY': (m >> 2) & 1, 'ARDUINOJSON_DECODE_UNICODE': (m >> 3) & 1})
+    return out
+
+
+def c10_jobs(tier):
+    jobs = []
+    for i, cfg in enumerate(c10_cfgs(tier)):
+        L = q(tier, 4 if i else 5, 5 if i else 6)
+        jobs.append(Job('tokens-cfg%d' % i, 'c10', 'tokens%d' % L, 0, defines=cfg, flavour='asan2', timeout=q(tier, 900, 14400)))
+        jobs.append(Job('texts-cfg%d' % i, 'c10', 'texts', q(tier, 60000, 1000000), defines=cfg, timeout=q(tier, 900, 7200)))
+        jobs.append(Job('hex-cfg%d' % i, 'c10', 'hex', 0, defines=cfg))
+    jobs.append(Job('texts-shortstrings', 'c10', 'texts', q(tier, 30000, 500000), defines={'ARDUINOJSON_STRING_LENGTH_SIZE': 1, 'ARDUINOJSON_ENABLE_COMMENTS': 1, 'ARDUINOJSON_DEBUG': 1}))
+    return jobs
+
+
+PROPS['C10'] = dict(
+    level='exploration',
+    rule='(1) ALL sequences up to length L (quick 5 default config / 4 others; thorough 6 / 5) over an 18-token alphabet ({ } [ ] , : "s\\\\u0041" \'q\' k_1 1 -1.5e2 true false null ws //c /*c*/ #), '
+         'each also with the end of input inside its last token and, for a quarter, under nesting limits 0..2; (2) texts from the C03 generator (valid, truncated, mutated, random) with single-quote, comment and '
+         'lenient-number substitutions under limits {0,1,2,3,10,50,255}; (3) every byte value in every digit position of \\\\uXXXX. Each input is judged by a three-valued recogniser of the documented dialect '
+         '(must-Ok with value / must-fail with allowed codes at the first offending position / don\'t-care); builds for COMMENTS, NAN, INFINITY, DECODE_UNICODE (3 in quick, all 16 in thorough); distinct = distinct input',
+    jobs=c10_jobs,
+    exhaustive=lambda tier: False,
+    min_evaluations=dict(quick=2000000, thorough=30000000),
+    technique='reference-recogniser monitoring: an independent explicit lexer + LL(1) recogniser of the documented dialect classifies every generated input; the library\'s (code, value) is compared under ASan+UBSan; token sequences enumerated exhaustively as workload',
+    level_text='Exploration; the token-sequence part is complete for its alphabet and length bound.',
+    level_note='The recogniser is itself a reading of the documentation; disagreements were triaged (DESIGN.md section 7). Don\'t-cares: top-level number followed by a non-whitespace byte, malformed number at the very end of the input (Invalid or Incomplete), unpaired surrogates (content), number tokens over 63 characters, backquote in unquoted keys.',
+    assumptions=COMMON_ASSUME,
+    extra_coverage={'inputs_judged': lambda agg, d: agg['counters'].get('inputs_judged', 0)},
+)
